@@ -103,10 +103,12 @@ inline void min_desc(const PPL::Grid* g) { if (g->space_dimension() > 0) { (void
 template <class D> inline void minimize_both_descriptions(const D& d, int) { min_desc(&d); }
 
 // "" when == / != agree with mutual containment (before and after minimization), else a description
-template <class D> inline std::string equality_inconsistency(const D& a, const D& b) {
-  if (a.space_dimension() != b.space_dimension()) return std::string();
+template <class D> inline std::string equality_inconsistency(const D& a, const D& b, bool* mutual_out = 0) {
+  if (a.space_dimension() != b.space_dimension()) { if (mutual_out) *mutual_out = false; return std::string(); }
+  const bool mutual = a.contains(b) && b.contains(a);       // a function of the two values: computed once
+  if (mutual_out) *mutual_out = mutual;
   for (int round = 0; round < 2; ++round) {
-    bool eq = (a == b), ne = (a != b), mutual = a.contains(b) && b.contains(a);
+    bool eq = (a == b), ne = (a != b);
     if (eq != mutual || ne == eq) {
       using namespace PPL::IO_Operators; std::ostringstream o;
       o << (round ? "after minimizing both sides: " : "") << "operator== says " << b2s(eq) << ", operator!= says " << b2s(ne) << ", mutual containment says " << b2s(mutual) << " for " << a << " and " << b;
@@ -116,12 +118,20 @@ template <class D> inline std::string equality_inconsistency(const D& a, const D
   }
   return std::string();
 }
-// the semantic equality used by the pool oracle for the simple domains of groups 7-11
+// the semantic equality used by the pool oracle for the simple domains of groups 7-11: mutual containment, and
+// operator== must agree with it once both sides are minimized (one round only: this is the hot path; the
+// operations "copies of ...()" and "operator== with a copy" apply the full two-round check with operator!=)
 template <class D> inline bool consistent_equal(const D& a, const D& b) {
   if (a.space_dimension() != b.space_dimension()) return false;
-  std::string w = equality_inconsistency(a, b);
-  if (!w.empty() && eq_alarm().empty()) eq_alarm() = w;
-  return a.contains(b) && b.contains(a);
+  minimize_both_descriptions(a, 0); minimize_both_descriptions(b, 0);
+  const bool mutual = a.contains(b) && b.contains(a);
+  const bool eq = (a == b);
+  if (eq != mutual && eq_alarm().empty()) {
+    using namespace PPL::IO_Operators; std::ostringstream o;
+    o << "after minimizing both sides: operator== says " << b2s(eq) << ", mutual containment says " << b2s(mutual) << " for " << a << " and " << b;
+    eq_alarm() = o.str().substr(0, 300);
+  }
+  return mutual;
 }
 
 // copy-construct and assign a system obtained by const reference; build the domain from the copies
@@ -141,8 +151,9 @@ inline std::string check_system_copies(const D& d, const SYS& s, const std::stri
     if (q.space_dimension() < d.space_dimension()) { if (by_constraints) q.add_space_dimensions_and_embed(d.space_dimension() - q.space_dimension()); else continue; }
     const char* which = k == 0 ? "the copy-constructed copy of " : k == 1 ? "the assigned copy of " : "";
     if (!q.OK()) return marker("invariant:temporary", "object built from " + std::string(which) + accessor + " is not OK()");
-    if (!(q.contains(d) && d.contains(q))) return marker("invariant:temporary", "object built from " + std::string(which) + accessor + " denotes a different set: " + io_print(q).substr(0, 120));
-    std::string w = equality_inconsistency(q, d);
+    bool same = false;
+    std::string w = equality_inconsistency(q, d, &same);
+    if (!same) return marker("invariant:temporary", "object built from " + std::string(which) + accessor + " denotes a different set: " + io_print(q).substr(0, 120));
     if (!w.empty()) return marker("equality:disagrees-with-mutual-containment", "object built from " + std::string(which) + accessor + " vs its source: " + w);
     // against an independently minimized equal object
     D r(d); minimize_both_descriptions(r, 0); minimize_both_descriptions(q, 0);
